@@ -2,7 +2,7 @@ import re
 import stat
 
 from pygopherd import gopherentry
-from pygopherd.handlers.base import BaseHandler
+from pygopherd.handlers.base import BaseHandler, isselectorsecure
 
 
 class BuckGophermapHandler(BaseHandler):
@@ -85,7 +85,9 @@ class BuckGophermapHandler(BaseHandler):
                     if entry.gethost() is None and entry.getport() is None:
                         # If we're using links on THIS server, try to fill
                         # it in for gopher+.
-                        if self.vfs.exists(selector):
+                        # The selector comes from the file's text: look at the
+                        # filesystem only for one a client could request too.
+                        if isselectorsecure(selector) and self.vfs.exists(selector):
                             entry.populatefromvfs(self.vfs, selector)
                     self.entries.append(entry)
                 else:  # Info line
